@@ -152,6 +152,21 @@ func mkHandler(run **chainRun, h int, script [][]any) rux.HandlerFunc {
 			case "redispatch":
 				c.Req.URL.Path = "/t"
 				c.Router().HandleContext(c)
+			case "subrouter":
+				// another router mounted here: it serves the request on a context of its own, writing through c.Resp
+				api := rux.New()
+				inner := op[1].([]any)
+				ihs := make([]rux.HandlerFunc, len(inner))
+				for i, sc := range inner {
+					script := [][]any{}
+					for _, o := range sc.([]any) {
+						script = append(script, o.([]any))
+					}
+					ihs[i] = mkHandler(run, 100+i+1, script)
+				}
+				api.Use(ihs[:len(ihs)-1]...)
+				api.GET(c.Req.URL.Path, ihs[len(ihs)-1])
+				rux.WrapHTTPHandler(api)(c)
 			case "abort":
 				c.Abort()
 			case "abortStatus":
@@ -476,6 +491,9 @@ func chainRunOnce(s *Summary, c *chainCase, sp chainSplit, outerPrefix string, c
 				inner[len(inner)-1](cx)
 			}, inner[:len(inner)-1]...)
 			path = "/g/h/x/7"
+		case "subrouter": // G ++ mount: the main handler of /g/h/x hands the request to another router
+			r.Use(hs[:n-1]...)
+			r.GET("/g/h/x", hs[n-1])
 		case "default":
 			// a router WITHOUT any middleware or custom fallback handler: the chain is the built-in handler alone (the script
 			// says which one); nothing is instrumented, only the calls that reach the underlying writer are observed
